@@ -671,21 +671,59 @@ class Put(StateSpec):
 
 
 class ToCache(Spec):
-    """StateForkType.to_cache: REF keeps the very same dict, COPY returns an equal dict that is a different object."""
+    """StateForkType.to_cache: REF keeps the very same dict, COPY returns an equal dict that is a different object -- and whose
+    tensors (plain, or the value / weight of a weighted tensor) share no storage with the originals, as documented
+    ("independent of the originals": the caller may update the old values in place afterwards)."""
     target = "leaspy.variables.state:StateForkType.to_cache"
 
     def configs(self):
-        return [dict(kind="ref"), dict(kind="copy")]
+        return [dict(kind="ref"), dict(kind="copy"), dict(kind="copy", tensors=True)]
 
     def background(self, cx):
         return []
 
     def setup(self, cx, cfg):
+        if cfg.get("tensors"):
+            from pyvc.tensor import STensor
+            from leaspy.utils.weighted_tensor import WeightedTensor
+            n = z3.Int("n_rows")
+            cx.assume(n >= 1)
+            plain = STensor.sym(cx, "plain", (n, 1))
+            wv, ww = STensor.sym(cx, "w_value", (n,)), STensor.sym(cx, "w_weight", (n,))
+            d = {"plain": plain, "weighted": SymObj(WeightedTensor, dict(value=wv, weight=ww)),
+                 "unweighted": SymObj(WeightedTensor, dict(value=STensor.sym(cx, "u_value", (n,)), weight=None))}
+            return dict(args=(fork_types()["copy"], d), d=d)
         d = SMap(cx, NAME, VAL, "d")
         return dict(args=(fork_types()[cfg["kind"]], d), d=d)
 
     def post(self, cx, st, out):
         r, d = out.value, st["d"]
+        if st["cfg"].get("tensors"):
+            from pyvc.tensor import STensor
+            ok = isinstance(r, dict) and r is not d and list(r) == list(d)
+            res = [("a new dict with the same keys", z3.BoolVal(bool(ok)))]
+            if not ok:
+                return res
+
+            def leaves(v):
+                if isinstance(v, STensor):
+                    return [v]
+                if isinstance(v, SymObj):
+                    return [x for x in (v.f.get("value"), v.f.get("weight")) if isinstance(x, STensor)]
+                return []
+
+            def storage(t):
+                return getattr(t, "_storage_of", t)
+            fresh, equal = True, []
+            for k in d:
+                a, b = leaves(d[k]), leaves(r[k])
+                fresh = fresh and len(a) == len(b) and r[k] is not d[k] and all(storage(y) is not storage(x) for x in a for y in b)
+                for x, y in zip(a, b):
+                    idx = x.fresh_idx(cx, "ci")
+                    equal.append(z3.ForAll(list(idx), z3.Implies(x.in_range(idx), x.fn(idx) == y.fn(idx))))
+            res.append(("every cached tensor is a new object on its own storage (deep copy)", z3.BoolVal(bool(fresh))))
+            res.append(("with equal entries", z3.And(*equal) if equal else z3.BoolVal(False)))
+            return res
         m = z3.Const("m_post", Name)
         ok = isinstance(r, SMap)
         res = [("a dict", z3.BoolVal(ok))]
@@ -697,3 +735,9 @@ class ToCache(Spec):
 
 UNITS += [Put(), AutoFork(), ToCache()]
 CALLEES += []
+
+# dag.wf() -- sorted_children / sorted_ancestors are the transitive closures -- is the precondition of every unit above; the
+# transitions that build them (contracts of C15, on the real statements of the constructor) are re-checked here, so that a
+# change to the graph construction fails this check as well
+from contracts import c15 as _c15
+UNITS += list(_c15.UNITS)
